@@ -160,8 +160,14 @@ func queuedEvents(c *Ctx, who string) {
 			go func(w int) {
 				defer wg.Done()
 				<-start
+				var own []byte // every second writer keeps ONE buffer for its events and fills it again after each call
 				for k := 0; k < per; k++ {
-					if n, err := conn.WriteEvent(mk(w, k)); err != nil || n != len(mk(w, k)) {
+					ev := mk(w, k)
+					if w%2 == 0 {
+						own = append(own[:0], ev...)
+						ev = own
+					}
+					if n, err := conn.WriteEvent(ev); err != nil || n != len(mk(w, k)) {
 						atomic.AddInt64(&failed, 1)
 					}
 					if k%7 == 0 {
